@@ -27,6 +27,15 @@ func TestMain(m *testing.M) {
 			t.Fatal(msg)
 		}
 	})
+	ev.RegisterReplay("unit_edge", func(t *testing.T, raw json.RawMessage) {
+		var c Case
+		if err := json.Unmarshal(raw, &c); err != nil {
+			t.Fatal(err)
+		}
+		if msg := floatBeyond(c); msg != "" {
+			t.Fatal(msg)
+		}
+	})
 	ev.RegisterReplay("native", func(t *testing.T, raw json.RawMessage) {
 		var c Case
 		if err := json.Unmarshal(raw, &c); err != nil {
